@@ -93,3 +93,36 @@ P("C07",
    U("c07.fs", "c07", "TestPathsFS", "allocate + write on a real tree with canaries; tree outside root unchanged; every file reads back its own bytes", Q(3000, 6), T(200000), min_nontrivial_frac=0.2),
    U("c07.tar", "ov:torrent", "TestVerifC07Tar", "readData on generated tar archives; tree outside destination unchanged; no symlink created", Q(4000, 4), T(300000), min_nontrivial_frac=0.1),
   ])
+
+P("C08",
+  level_text="Bounded random exploration of attacker byte streams into the real peer reader (grammar of well-formed messages mixed with hostile frames: lying "
+             "length prefixes up to 2^32-1, unknown ids, wrong body sizes, truncation, hostile bencoded extension payloads) under generated TCP fragmentation, "
+             "with the maximum message size itself generated. Oracle: no panic, the reader ends or delivers, allocation stays within a bound tied to the bytes fed and "
+             "the maximum message size, and every message of the well-formed prefix is delivered and re-encodes (reference codec) to the bytes fed.",
+  level_note="Trusted: harness/refwire (independent codec), runtime.MemStats.TotalAlloc as the allocation meter (bound 8*bytes+4*max+1MiB catches any "
+             "attacker-sized allocation; it is not a byte-exact limit). System-level clauses (one peer cannot stop the torrent) are decided by the session unit when listed.",
+  technique="property-based testing (rapid): grammar-based stream generation + allocation/termination/prefix-delivery oracle against a reference codec",
+  rule="streams of 1..10 elements (well-formed messages of every kind with 32-bit field values; hostile frames) x max message size {1K..64K} x read-size schedules; "
+       "non-trivial = stream contains >=1 hostile element; extension payload unit: hostile dictionaries into ExtensionMessage.UnmarshalBinary",
+  assumptions=["after the first malformed frame any behaviour short of crash/over-allocation/hang is accepted (the peer may be dropped)"],
+  units=[
+   U("c08.reader", "c08", "TestReaderStream", "peerreader on generated streams: no panic, bounded allocation, terminates, well-formed prefix delivered intact",
+     Q(2400, 8), T(300000), min_nontrivial_frac=0.3, env={"VERIF_JOURNAL": "1"}),
+   U("c08.ext", "c08", "TestExtPayload", "ExtensionMessage.UnmarshalBinary on hostile payloads: no panic, returns, allocation <= 64*len+1MiB",
+     Q(20000, 4), T(2000000), min_nontrivial_frac=0.3, env={"VERIF_JOURNAL": "1"}),
+  ])
+
+P("C11",
+  level_text="Bounded random exploration: generated sequences of every message kind the client can emit (32-bit field values, bitfields and extension payloads up to 8 KiB, "
+             "metadata pieces up to 16 KiB, PEX lists) go through the real peer writer onto an in-memory connection; the bytes are compared frame by frame with an "
+             "independent reference encoder (extension dictionaries: canonical bencode + field equality), then fed to the real peer reader under generated fragmentation "
+             "and the delivered messages must equal the sent ones. The upload counter is compared with the payload bytes the remote received, also under an injected write failure.",
+  level_note="Trusted: harness/refwire and harness/model bencode (written from the BEPs), harness/chunkconn. Handshake bytes are checked by the C12 units (btconn).",
+  technique="property-based testing (rapid): differential against an independent reference codec + round trip through the real reader",
+  rule="1..12 messages per case, read-size schedules incl. 1-byte reads, optional write fault at a generated byte offset; non-trivial = >=3 kinds and "
+       "(extension message > 512 B or non-empty bitfield, or a schedule splitting headers, or a write fault)",
+  assumptions=["a piece for a request already served on the connection is answered with reject (documented writer behaviour) and is modelled so"],
+  units=[
+   U("c11.wire", "c11", "TestWire", "peerwriter bytes == reference encoding; peerreader(stream, any fragmentation) == sent messages; upload counter == payload received",
+     Q(3000, 8), T(400000), min_nontrivial_frac=0.2),
+  ])
